@@ -576,6 +576,16 @@ func (w *World) callWrites(c *ssa.CallCommon, ws *WriteSet, g *Gen, encl *ssa.Fu
 		}
 		if ct.HasAssigns {
 			for _, d := range ct.allAssigns() {
+				// deref(argK) of a function-typed callee: the pointee type comes from the argument at this call
+				if dd := strings.TrimSpace(d); fn == nil && strings.HasPrefix(dd, "deref(arg") && strings.HasSuffix(dd, ")") {
+					var k int
+					if _, err := fmt.Sscanf(dd, "deref(arg%d)", &k); err == nil && k < len(c.Args) {
+						if _, isPtr := c.Args[k].Type().Underlying().(*types.Pointer); isPtr {
+							w.ptrWrites(c.Args[k], ws)
+							continue
+						}
+					}
+				}
 				names, all := w.designatorVars(d, fn, ct)
 				if all {
 					ws.All, ws.Why = true, "assigns "+d+" of "+key
